@@ -222,6 +222,11 @@ class Fn:
         for (e, val, d, s, discr) in self.sym._guards_full(bi):
             if val not in ("true", "false") or not _is_place_op(discr):
                 continue
+            # `val` belongs to the CANONICAL spelling of the guard (guards.canon_guard may have negated it); this prover reads the raw MIR
+            # rvalue, so it needs the raw truth of the switch operand on the taken edge
+            tsw = self.b["blocks"][d]["term"]
+            zero_targets = [tb for v, tb in tsw.get("targets", []) if v == 0]
+            val = "false" if s in zero_targets else "true"
             dl = discr["place"]["local"]
             dd = self.g.single_def(dl)
             if dd is None:
@@ -566,9 +571,14 @@ class Fn:
             return False, "len(%s) not covered by a slice starts_with at that offset" % self.g.path_s(d[1])
         if k == "const" and d[1] == 1:
             for gk, data, truth, dblk in self.forced(at):
-                if gk == "bin" and truth and data["op"] == "Lt":
-                    rd = self.describe(data["r"])
-                    if rd[0] == "len" and self.slice_of(rd[1]) == ("E", None, None) and self.same_value(data["l"], dblk, o_op, at):
+                if gk != "bin":
+                    continue
+                # every spelling of `o < len(env)`: Lt(o,len)=true, Ge(o,len)=false, Gt(len,o)=true, Le(len,o)=false
+                lt = {("Lt", True): ("l", "r"), ("Ge", False): ("l", "r"), ("Gt", True): ("r", "l"), ("Le", False): ("r", "l")}.get((data["op"], bool(truth)))
+                if lt:
+                    small, big = data[lt[0]], data[lt[1]]
+                    rd = self.describe(big)
+                    if rd[0] == "len" and self.slice_of(rd[1]) == ("E", None, None) and self.same_value(small, dblk, o_op, at):
                         return True, "F-ONE o < len(env)"
             return False, "+1 without a dominating `o < len(env)`"
         if k == "const" and d[1] == 0:
